@@ -27,7 +27,7 @@ def _pt_affine32(u):
 
 
 PRIORS = {"affine32": _pt_affine32, "affine": targets.pt_affine, "nonlinear": targets.pt_nonlinear, "identity": targets.pt_identity}
-BOUNDARY = {"empty": ([], []), "tuples": ((0,), (1,)), "none": (None, None), "per0": ([0], None), "ref1": (None, [1]), "per0ref1": ([0], [1]), "ref0": (None, [0]), "per1": ([1], None)}
+BOUNDARY = {"empty": ([], []), "tuples": ((0,), (1,)), "sets": ({0}, frozenset({1})), "none": (None, None), "per0": ([0], None), "ref1": (None, [1]), "per0ref1": ([0], [1]), "ref0": (None, [0]), "per1": ([1], None)}
 
 
 class LL:
@@ -36,6 +36,7 @@ class LL:
     def __init__(self, f, mode, shift=0.0):
         self.f, self.mode, self.shift = f, mode, shift
         self.dtype = "float64"
+        self.blob_dtype = None
         self.n = 0
         self.order = []
 
@@ -48,7 +49,7 @@ class LL:
         self.n += 1
         v = self.f(x) * scale + offset + self.shift
         if self.mode == "blobs":
-            return v, targets.blob_of(x)
+            return v, targets.blob_cast(targets.blob_of(x), self.blob_dtype)
         return v
 
 
@@ -91,10 +92,11 @@ def make_sampler(cfg, pool=None):
     mode = {"vec": "vec", "scalar": "scalar", "blobs": "blobs", "poolobj": "scalar", "poolobj_blobs": "blobs", "poolint": "scalar"}[ev]
     ll = LL(f, mode, c["shift"])
     ll.dtype = c.get("ll_dtype", "float64")
+    ll.blob_dtype = c.get("blob_dtype")
     per, ref = BOUNDARY[c["boundary"]]
     kw = dict(
         prior_transform=PRIORS[c["prior"]], log_likelihood=ll, n_dim=c["d"], n_particles=c["n_particles"], ess_ratio=c["ess_ratio"],
-        volume_variation=c["vv"], vectorize=(mode == "vec"), blobs_dtype="float64" if mode == "blobs" else None,
+        volume_variation=c["vv"], vectorize=(mode == "vec"), blobs_dtype=(c.get("blob_dtype") or "float64") if mode == "blobs" else None,
         periodic=per, reflective=ref, clustering=c["clustering"], normalize=c["normalize"], cluster_every=c["cluster_every"],
         split_threshold=c["split_threshold"], n_max_clusters=c["n_max_clusters"], sample=c["sample"], n_steps=c["n_steps"],
         n_max_steps=c["n_max_steps"], resample=c["resample"], random_state=c["random_state"],
@@ -268,6 +270,7 @@ class Probe:
         self.tape = OwnedRandom(iter_seed(base, 0, "init"))
         self.exc = None
         self.completed = False
+        self.retries = 0
         self.trace = []
         self.fs = fs
 
@@ -335,8 +338,9 @@ class Probe:
             _ACTIVE = prev
         return self
 
-    def steps(self, n):
-        """Drive n iterations through the public Sampler.sample() (fresh start)."""
+    def steps(self, n, retry_on=None):
+        """Drive n iterations through the public Sampler.sample() (fresh start).  With retry_on=<exception type>, an iteration that
+        raises it (a failure injected into the user's likelihood) is attempted again on the same object, as a user would."""
         global _ACTIVE
         prev = _ACTIVE
         _ACTIVE = self
@@ -345,7 +349,15 @@ class Probe:
                 if self.state.get_current("iter") is None:
                     self.sampler._core._initialize_fresh()
                 for _ in range(n):
-                    self.sampler.sample()
+                    while True:
+                        try:
+                            self.sampler.sample()
+                            break
+                        except Exception as e:
+                            if retry_on is None or not isinstance(e, retry_on) or self.retries >= 8:
+                                raise
+                            self.retries += 1
+                            self.in_iter = False
             self.completed = True
         except Exception as e:
             self.exc = e
@@ -356,6 +368,10 @@ class Probe:
 
 class Horizon(Exception):
     pass
+
+
+class UserFailure(RuntimeError):
+    """Raised by a fixture likelihood at a chosen call (a transient failure of the user's code)."""
 
 
 def deviation_tree(run_fn, alphabet=("a", "b"), max_dev=1, max_runs=None):
